@@ -263,7 +263,7 @@ pub fn with_unknown(doc: &Doc, ins: &[(usize, usize)]) -> Vec<u8> {
 
 pub fn run() {
 	let cx = ctx();
-	cx.note("rule", json!("(a) replays of every framing regime (with gecko blocks where they exist) x unknown events (code,size) in {(0x3E,1),(0x40,2),(0x11,600),(0xFF,4),(0x00,7),(0x7E,65535)} declared in the payload table and inserted at every event boundary after Game Start (between splitter blocks, inside frames, before/after Game End): all single insertions, all pairs (multisets; same or different boundary), and a run of three; the game must equal the one read from the same replay with the unknown events removed, and the model. (b) versions {3.17, 3.255, 4.0, 255.255} with 3.16 content and +1/+3/+17 trailing bytes on each known event kind alone and on all together (Game Start and Game End included), table updated: every known field equals the un-extended parse; start.bytes/end.bytes carry the extra bytes. Non-trivial = contains at least one unknown event / extended payload"));
+	cx.note("rule", json!("(a) replays of every framing regime (with gecko blocks where they exist) x unknown events (code,size) in {(0x3E,1),(0x40,2),(0x11,600),(0xFF,4),(0x00,7),(0x7E,65535)} declared in the payload table and inserted at every event boundary after Game Start (between splitter blocks, inside frames, before/after Game End): all single insertions, all pairs (multisets; same or different boundary), and a run of three; plus EVERY one of the 246 undefined codes singly at three boundaries; the game must equal the one read from the same replay with the unknown events removed, and the model. (b) versions {3.17, 3.255, 4.0, 255.255} with 3.16 content and +1/+3/+17 trailing bytes on each known event kind alone and on all together (Game Start and Game End included), table updated: every known field equals the un-extended parse; start.bytes/end.bytes carry the extra bytes. Non-trivial = contains at least one unknown event / extended payload"));
 	cx.note("exhaustive", json!(true));
 	cx.note("assumptions", json!(["unknown = an event code outside the 10 codes the format defines up to 3.16"]));
 	let mut jobs: Vec<(Arc<Doc>, String, Vec<(usize, usize)>)> = vec![];
@@ -309,6 +309,32 @@ pub fn run() {
 			jobs.push((doc.clone(), label.clone(), vec![(k, at.max(1))]));
 		}
 	}
+	// EVERY code the format does not define (246 of them), one at a time: a table keyed by anything less than
+	// the full code byte, or a code that aliases a known one in some bits, shows here
+	let mut code_jobs: Vec<(Arc<Doc>, String, u8, u16, usize)> = vec![];
+	for a in bases(true) {
+		let doc = Arc::new(record(&a).doc);
+		let nb = doc.events.len();
+		for code in 0..=255u8 {
+			if matches!(code, 0x10 | 0x35..=0x3D) {
+				continue;
+			}
+			for (at, size) in [(1usize, 3u16), ((nb + 1) / 2, 5), (nb, 2)] {
+				code_jobs.push((doc.clone(), a.describe(), code, size, at.max(1)));
+			}
+		}
+	}
+	cx.note("all_unknown_codes_cases", json!(code_jobs.len()));
+	par_each(code_jobs.into_iter(), |(doc, label, code, size, at), local| {
+		let mut d = (*doc).clone();
+		if d.size_of(code).is_none() {
+			d.table.push((code, size));
+		}
+		d.events.insert(at, Ev { code, payload: (0..size as usize).map(|i| fill_byte(Fill::B, 0x51, i)).collect(), tag: Tag::Unknown });
+		let bytes = Arc::new(d.assemble());
+		let p = P { class: "any-code", ..Default::default() };
+		eval_case("unknown_events", o_unknown, &bytes, &p, || format!("{} + unknown event code {:#04x} ({} bytes) at boundary {}", label, code, size, at), local);
+	});
 	cx.note("insertion_cases", json!(jobs.len()));
 	par_each(jobs.into_iter(), |(doc, label, ins), local| {
 		let bytes = Arc::new(with_unknown(&doc, &ins));
